@@ -47,7 +47,16 @@ import numbers
 
 import toolz
 
-from dask._task_spec import Alias, DataNode, GraphNode, NestedContainer, Task, TaskRef, convert_legacy_graph
+from dask._task_spec import (
+    Alias,
+    DataNode,
+    GraphNode,
+    NestedContainer,
+    Task,
+    TaskRef,
+    _execute_subgraph,
+    convert_legacy_graph,
+)
 
 
 def _norm_key(key):
@@ -73,6 +82,18 @@ class _Flattener:
         self.extra = []
         self._n = 0
 
+    def resolve_task_args(self, task, deps):
+        """Resolve a Task's positional args. A fused task ``_execute_subgraph(inner_dsk,
+        outkey, inkeys, *dependencies)`` carries its inner subgraph as *data*: the inner
+        Tasks reference fused-away keys that exist only inside that subgraph, so lifting
+        them into records would reference keys nobody produces (or, in a shared-``seen``
+        submission, keys another collection happens to produce, silently replacing the
+        inner callables by block data). Pass the subgraph, its output key and its input
+        labels through untouched and resolve only the real dependencies."""
+        if task.func is _execute_subgraph and len(task.args) >= 3:
+            return tuple(task.args[:3]) + tuple(self.resolve(a, deps) for a in task.args[3:])
+        return tuple(self.resolve(a, deps) for a in task.args)
+
     def resolve(self, arg, deps):
         if isinstance(arg, TaskRef):
             k = _norm_key(arg.key)
@@ -97,7 +118,7 @@ class _Flattener:
             self._n += 1
             sub_key = f"{self.parent_key}-sub{self._n}"
             sub_deps = set()
-            sub_args = tuple(self.resolve(a, sub_deps) for a in arg.args)
+            sub_args = self.resolve_task_args(arg, sub_deps)
             sub_kwargs = {k: self.resolve(v, sub_deps) for k, v in (arg.kwargs or {}).items()}
             self.extra.append((sub_key, arg.func, sub_args, sub_kwargs, sorted(sub_deps)))
             deps.add(sub_key)
@@ -162,7 +183,7 @@ def _records(key, node):
         resolved = fl.resolve(node, deps)
         return [(out_key, toolz.identity, (resolved,), {}, sorted(deps)), *fl.extra]
     if isinstance(node, Task):
-        args = tuple(fl.resolve(a, deps) for a in node.args)
+        args = fl.resolve_task_args(node, deps)
         kwargs = {k: fl.resolve(v, deps) for k, v in (node.kwargs or {}).items()}
         return [(out_key, node.func, args, kwargs, sorted(deps)), *fl.extra]
     if isinstance(node, GraphNode):
